@@ -27,7 +27,10 @@ KindRows  == ndJsonDeserialize(IOEnv.KINDS)     \* written by ProblemKindLattice
 StateRows == ndJsonDeserialize(IOEnv.STATES)
 ExcRows   == ndJsonDeserialize(IOEnv.EXCS)
 MatRows   == ndJsonDeserialize(IOEnv.MATRIX)    \* row a: [le |-> <<..>>, eq |-> <<..>>], 0/1, 2 = no value
-Cases     == ndJsonDeserialize(IOEnv.CASES)
+Cases     == ndJsonDeserialize(IOEnv.CASES)     \* [id, a, b, al, st, rw]
+CONSTANTS HasRows,   \* TRUE: IOEnv.ROWS holds third-kind rows [ur, ir, rx]; a case points to its row by rw (0 = none)
+          NBlk       \* cases are dealt to NBlk initial states so that all workers share the judging
+Rows      == IF HasRows THEN ndJsonDeserialize(IOEnv.ROWS) ELSE <<>>
 
 NK == Len(KindRows)
 KindOf(i) == [dv |-> KindRows[i].dv, f |-> SetOfMask[KindRows[i].m]]
@@ -38,8 +41,8 @@ LeM(i, j) == MatRows[i].le[j]
 EqM(i, j) == MatRows[i].eq[j]
 B2I(b) == IF b THEN 1 ELSE 0
 
-VARIABLES tid, l, bad
-tvars == <<vars, tid, l, bad>>
+VARIABLES tid, l, bad, blk
+tvars == <<vars, tid, l, bad, blk>>
 
 OpName(op) == CASE op = 1 -> "eq" [] op = 2 -> "le" [] op = 3 -> "union" [] op = 4 -> "inter"
                 [] op = 5 -> "ub1" [] op = 6 -> "ub2" [] op = 7 -> "lb1" [] op = 8 -> "lb2" [] op = 9 -> "uple"
@@ -107,41 +110,47 @@ StepFails(c, s, a, b, r) ==
 \* ---- the third-kind rows (triples): bit t of the rows = result for the t-th kind of the version
 RowBit(row, t) == (row[((t - 1) \div 24) + 1] \div (2 ^ ((t - 1) % 24))) % 2
 RowFails(c, a, b) ==
-   LET g == GroupSeqT[Ver(a)]  u == Union(a, b)  n == Inter(a, b) IN
-   (IF c.rx # 0 THEN {<<"raises", "rows", "">>} ELSE {})
-   \cup (IF \E t \in DOMAIN g : RowBit(c.ur, t) # B2I(Le(u, KindT[g[t]])) THEN {<<"le-of-union", "third-kind", "">>} ELSE {})
-   \cup (IF \E t \in DOMAIN g : RowBit(c.ir, t) # B2I(Le(KindT[g[t]], n)) THEN {<<"le-of-intersection", "third-kind", "">>} ELSE {})
-   \cup (IF \E t \in DOMAIN g : LeM(c.a, g[t]) = 1 /\ LeM(c.b, g[t]) = 1 /\ RowBit(c.ur, t) # 1
+   LET g == GroupSeqT[Ver(a)]  u == Union(a, b)  n == Inter(a, b)  rw == Rows[c.rw] IN
+   (IF rw.rx # 0 THEN {<<"raises", "rows", "">>} ELSE {})
+   \cup (IF \E t \in DOMAIN g : RowBit(rw.ur, t) # B2I(Le(u, KindT[g[t]])) THEN {<<"le-of-union", "third-kind", "">>} ELSE {})
+   \cup (IF \E t \in DOMAIN g : RowBit(rw.ir, t) # B2I(Le(KindT[g[t]], n)) THEN {<<"le-of-intersection", "third-kind", "">>} ELSE {})
+   \cup (IF \E t \in DOMAIN g : LeM(c.a, g[t]) = 1 /\ LeM(c.b, g[t]) = 1 /\ RowBit(rw.ur, t) # 1
          THEN {<<"impl-union-is-least", "", "">>} ELSE {})
-   \cup (IF \E t \in DOMAIN g : LeM(g[t], c.a) = 1 /\ LeM(g[t], c.b) = 1 /\ RowBit(c.ir, t) # 1
+   \cup (IF \E t \in DOMAIN g : LeM(g[t], c.a) = 1 /\ LeM(g[t], c.b) = 1 /\ RowBit(rw.ir, t) # 1
          THEN {<<"impl-intersection-is-greatest", "", "">>} ELSE {})
 
-NSteps(c) == Len(c.st) + c.rows
+NSteps(c) == Len(c.st) + (IF c.rw # 0 THEN 1 ELSE 0)
 
-TraceInit == /\ tid \in DOMAIN Cases /\ l = 1 /\ bad = {}
-             /\ LET c == Cases[tid] IN
-                /\ objs = <<KindT[c.a], IF c.al = 1 THEN NoKind ELSE KindT[c.b]>>
-                /\ live = IF c.al = 1 THEN {1} ELSE {1, 2}
-             /\ ret = NoRet
+TraceInit == /\ blk \in 1..NBlk /\ tid = 0 /\ l = 0 /\ bad = {} /\ Init
 
-TraceNext ==
-   LET c == Cases[tid]  a == KindT[c.a]  b == KindT[c.b]  j == IF c.al = 1 THEN 1 ELSE 2 IN
-   /\ l <= NSteps(c)
-   /\ IF l <= Len(c.st)
-      THEN LET s == c.st[l] IN
-           /\ CASE s[1] = 1 -> QEq(1, j) \/ QUnspecified(1, j)
-                [] s[1] = 2 -> QLe(1, j)
-                [] s[1] = 3 -> QUnion(1, j)
-                [] s[1] = 4 -> QInter(1, j)
-                [] s[1] \in 5..8 -> QBound(1, j, OpName(s[1]))
-                [] s[1] = 9 -> QUpLe(1, j, s[2])
-           /\ bad' = bad \cup {<<l>> \o x : x \in StepFails(c, s, a, b, ret')}
-      ELSE /\ UNCHANGED vars
-           /\ bad' = bad \cup {<<l>> \o x : x \in RowFails(c, a, b)}
-   /\ l' = l + 1 /\ tid' = tid
+\* the driver's constructor calls: the operands of case t (one object if al = 1); judged by the build clause
+Pick == /\ tid = 0
+        /\ tid' \in {t \in DOMAIN Cases : (t % NBlk) + 1 = blk}
+        /\ LET c == Cases[tid'] IN
+           /\ objs' = <<KindT[c.a], IF c.al = 1 THEN NoKind ELSE KindT[c.b]>>
+           /\ live' = IF c.al = 1 THEN {1} ELSE {1, 2}
+        /\ ret' = NoRet /\ l' = 1 /\ bad' = {} /\ blk' = blk
+
+Step ==
+   /\ tid # 0
+   /\ LET c == Cases[tid]  a == KindT[c.a]  b == KindT[c.b]  j == IF c.al = 1 THEN 1 ELSE 2 IN
+      /\ l <= NSteps(c)
+      /\ IF l <= Len(c.st)
+         THEN LET s == c.st[l] IN
+              /\ CASE s[1] = 1 -> QEq(1, j) \/ QUnspecified(1, j)
+                   [] s[1] = 2 -> QLe(1, j)
+                   [] s[1] = 3 -> QUnion(1, j)
+                   [] s[1] = 4 -> QInter(1, j)
+                   [] s[1] \in 5..8 -> QBound(1, j, OpName(s[1]))
+                   [] s[1] = 9 -> QUpLe(1, j, s[2])
+              /\ bad' = bad \cup {<<l>> \o x : x \in StepFails(c, s, a, b, ret')}
+         ELSE /\ UNCHANGED vars
+              /\ bad' = bad \cup {<<l>> \o x : x \in RowFails(c, a, b)}
+   /\ l' = l + 1 /\ tid' = tid /\ blk' = blk
+TraceNext == Pick \/ Step
 TraceSpec == TraceInit /\ [][TraceNext]_tvars
 
-Done == l > NSteps(Cases[tid])
+Done == tid # 0 /\ l > NSteps(Cases[tid])
 \* ToString keeps the value on one output line (TLC wraps long values)
 Verdict == (Done /\ bad # {}) => PrintT(ToString(<<"FAIL", Cases[tid].id, bad>>))
 =============================================================================
